@@ -2,7 +2,7 @@
 import ast
 
 from sa.astutil import (norm, guards_of, reaching_value, walk_no_nested, always_exits, parent,
-                        enclosing, stmt_of)
+                        enclosing, stmt_of, preceding_stmts)
 from sa.bitsdom import BitsDom, Cannot, width_term, mask_width, self_name
 from sa.errors import AnalysisError
 from sa.minieval import Evaluator
@@ -127,11 +127,31 @@ def _int_region(f, ret_stmt, name, allow_lo):
     return gs
 
 
-def _eval_region(f, guards, name, at, U, n_evals):
+class WrongWidth(Exception):
+    """a bound table is indexed with something that is not the target width"""
+
+
+def _table_ref(e, at):
+    """(table name, index expr) if e denotes _upper[..]/_lower[..] directly or through a local alias"""
+    if isinstance(e, ast.Subscript) and isinstance(e.value, ast.Name) and e.value.id in ('_upper', '_lower'):
+        return e.value.id, e.slice
+    if isinstance(e, ast.Name):
+        rv = reaching_value(e.id, at)
+        if rv is not None and isinstance(rv, ast.Subscript) and isinstance(rv.value, ast.Name) and rv.value.id in ('_upper', '_lower'):
+            return rv.value.id, rv.slice
+    return None
+
+
+def _eval_region(f, guards, name, at, U, n_evals, want_width=None):
     """set of integer values v of `name` accepted by all guards, with mask leaves -> U and lower leaves -> -(U+1)//2"""
     LO = -((U + 1) // 2)
 
     def leaf(e):
+        tr = _table_ref(e, at) if not isinstance(e, ast.Constant) else None
+        if tr is not None:
+            w = width_term(tr[1], at, f)
+            if w is None or (want_width is not None and w != want_width):
+                raise WrongWidth(f"{tr[0]}[{norm(tr[1])}]")
         mw = mask_width(e, at, f) if not isinstance(e, ast.Constant) else None
         if mw == 'N' or (mw is not None and mw.startswith('S:')):
             return U
@@ -181,7 +201,12 @@ def rule_guard(repo):
             r.bad(m, f"Bits.{fname}", cons, f"no range guard on integer operand {name} dominates this result", ret.lineno)
             return
         for U in (1, 3, 7):
-            acc = _eval_region(f, gs, name, ret, U, nev)
+            try:
+                acc = _eval_region(f, gs, name, ret, U, nev)
+            except WrongWidth as ww:
+                r.bad(m, f"Bits.{fname}", cons, f"the range check of {name} uses {ww}, which is not the bound for the target width: values that "
+                      f"do not fit are silently truncated (or fitting ones rejected)", ret.lineno)
+                return
             LO = -((U + 1) // 2)
             want = set(range(LO if signed_ok else 0, U + 1))
             if acc != want:
@@ -254,6 +279,14 @@ def rule_guard(repo):
         vname = f.args.args[2].arg if fname == '__init__' else f.args.args[1].arg
         writes = [(t, v, st) for t, v, st in _field_writes(f) if t.attr == field]
         if len(writes) < 2:
+            deleg = [c for c in walk_no_nested(f) if isinstance(c, ast.Call) and norm(c.func) in ('Bits.__init__', f'{self_name(f)}.__init__', 'super().__init__')]
+            if fname != '__init__' and deleg:
+                # the int path re-uses the constructor's check-and-store (judged under __init__)
+                r.ok(m, f"Bits.{fname}", f"int path delegates to {norm(deleg[0])[:50]}", nontrivial=False)
+                for t, v, st in writes:
+                    if any(isinstance(n, ast.Attribute) and n.attr in ('_uint', 'to_bits') for n in ast.walk(v)):
+                        check_bits_path(fname, f, st, vname, required=True)
+                continue
             raise AnalysisError(f"Bits.{fname}: expected a Bits-operand and an int-operand store to {field}")
         for t, v, st in writes:
             reads_obj = any(isinstance(n, ast.Attribute) and n.attr in ('_uint', 'to_bits') for n in ast.walk(v))
@@ -273,6 +306,11 @@ def rule_guard(repo):
                         r.bad(m, "Bits.__init__", cons, "constructor has no range check for integer values", st.lineno)
                         continue
                     g0 = rng[0]
+                    # a rejected value must not have been stored already: the check precedes the store
+                    if not any(x is g0 for s_ in preceding_stmts(st) for x in ast.walk(s_)):
+                        r.bad(m, "Bits.__init__", cons, "the value is stored BEFORE the range check that may reject it: a failing construction / "
+                              "delegated assignment raises ValueError but has already overwritten the stored value", st.lineno)
+                        continue
                     outer = [g for g in guards_of(g0) if g.kind == 'if' and 'trunc_int' in norm(g.test)]
                     if not outer or not (norm(outer[0].test).endswith('trunc_int') and outer[0].polarity is False):
                         r.bad(m, "Bits.__init__", cons, "range check is not controlled by `not trunc_int`", g0.lineno)
@@ -735,7 +773,14 @@ def rule_shiftbound(repo):
     return r
 
 
-RULES = [rule_range, rule_guard, rule_optable, rule_tables, rule_exhaustive, rule_shiftbound]
+def rule_slice_assign_fit(repo):
+    """`x[a:b] = v` is an assignment too: integers / Bits that do not fit the slice must raise instead of being truncated
+    (shared with C05: R-C05-fit)"""
+    from rules.c05 import rule_fit
+    return rule_fit(repo)
+
+
+RULES = [rule_range, rule_guard, rule_optable, rule_tables, rule_exhaustive, rule_shiftbound, rule_slice_assign_fit]
 
 
 # ---------------------------------------------------------------------------
@@ -745,6 +790,8 @@ def _m(name, old, new, rule=None, file=BITS, count=1):
 
 
 MUTANTS = [
+    _m('ctor-store-before-check', "      up = _upper[nbits]\n\n      if not trunc_int:\n        lo = _lower[nbits]\n        if v < lo or v > up:\n          raise ValueError( f\"Value {hex(v)} is too wide for Bits{nbits}!\\n\" \\\n                            f\"(Bits{nbits} only accepts {hex(lo)} <= value <= {hex(up)})\" )\n      self._uint = v & up",
+       "      up = _upper[nbits]\n      self._uint = v & up\n\n      if not trunc_int:\n        lo = _lower[nbits]\n        if v < lo or v > up:\n          raise ValueError( f\"Value {hex(v)} is too wide for Bits{nbits}!\\n\" \\\n                            f\"(Bits{nbits} only accepts {hex(lo)} <= value <= {hex(up)})\" )", 'R-C04-guard'),
     _m('lshift-shortcut-removed', "      uint = other._uint\n      if uint >= nbits:\n        return _new_valid_bits( self._nbits, 0 )\n", "      uint = other._uint\n", 'R-C04-shiftbound'),
     _m('template-fast-path', "  def __init__( s, v=0, *, trunc_int=False ):\n    return super().__init__( {0}, v, trunc_int )", "  def __init__( s, v=0, *, trunc_int=False ):\n    if isinstance( v, Bits ):\n      s._nbits = {0}\n      s._uint = v._uint\n      return\n    return super().__init__( {0}, v, trunc_int )", 'R-C04-exhaustive', file=IMPORT, count=2),
     _m('add-bits-unmasked', "(self._uint + other._uint) & _upper[nbits] )", "(self._uint + other._uint) )", 'R-C04-range'),
